@@ -37,19 +37,24 @@ class DockerLauncher:
 
     def start(self, node_configurations):
         nodes = []
-        for node_configuration in node_configurations:
-            node_name = node_configuration.node_name
-            host_name = node_configuration.ip
-            binary_path = node_configuration.binary_path
-            self.logger.info("Starting node [%s] in Docker.", node_name)
-            self._start_process(binary_path)
-            node_telemetry = [
-                # Don't attach any telemetry devices for now but keep the infrastructure in place
-            ]
-            t = telemetry.Telemetry(devices=node_telemetry)
-            node = cluster.Node(0, binary_path, host_name, node_name, t)
-            t.attach_to_node(node)
-            nodes.append(node)
+        try:
+            for node_configuration in node_configurations:
+                node_name = node_configuration.node_name
+                host_name = node_configuration.ip
+                binary_path = node_configuration.binary_path
+                self.logger.info("Starting node [%s] in Docker.", node_name)
+                self._start_process(binary_path)
+                node_telemetry = [
+                    # Don't attach any telemetry devices for now but keep the infrastructure in place
+                ]
+                t = telemetry.Telemetry(devices=node_telemetry)
+                node = cluster.Node(0, binary_path, host_name, node_name, t)
+                t.attach_to_node(node)
+                nodes.append(node)
+        except BaseException:
+            # all or nothing: the caller only learns about the nodes if all of them have started, so stop the ones that already run
+            self.stop(nodes, None)
+            raise
         return nodes
 
     def _start_process(self, binary_path):
@@ -130,7 +135,15 @@ class ProcessLauncher:
 
     def start(self, node_configurations):
         node_count_on_host = len(node_configurations)
-        return [self._start_node(node_configuration, node_count_on_host) for node_configuration in node_configurations]
+        nodes = []
+        try:
+            for node_configuration in node_configurations:
+                nodes.append(self._start_node(node_configuration, node_count_on_host))
+        except BaseException:
+            # all or nothing: the caller only learns about the nodes if all of them have started, so stop the ones that already run
+            self.stop(nodes, None)
+            raise
+        return nodes
 
     def _start_node(self, node_configuration, node_count_on_host):
         host_name = node_configuration.ip
